@@ -24,7 +24,7 @@ import irispie as ir
 from .common import Ctx, Rng, rat_of_float, VERIF
 
 DRIVERS = ["C07"]
-EXTRA_PROPS = ['BridgeC07']   # refinement bridge from the executable QMat model to the matrix-level theorems (audited with this check)
+EXTRA_PROPS = ['BridgeC07', 'C07Frames']   # refinement bridge from the executable QMat model to the matrix-level theorems (audited with this check)
 LEVEL = "proof"
 MANIFEST = {
     "category": "proof",
@@ -392,31 +392,58 @@ def gen_mixed_case(rng: Rng, spec, m, N, method, k):
             "scramble": rng.chance(0.5), "scramble_seed": rng.randint(0, 10**6)}
 
 
-def dates_arg(offs, NP, key):
-    """one of the ways a user can hand the intended plan dates `START + t, t in offs` to exogenize_*/endogenize_*: a tuple or list of
-    periods in the given, reversed or rotated order, a single Period, and -- when the offsets are an arithmetic progression -- a `Span`
-    with that step, forward or backward (negative step), with resolved or context-dependent (`ir.start + a`, `ir.end - c`) end points.
-    The intended set is `offs` whatever the form; `key` picks the form deterministically (so that a replay picks the same)."""
+def _date_forms(offs, NP, key):
+    """(name, maker of the Python object, text of the form in the Lean line protocol) -- see `dates_arg`"""
     offs = [int(t) for t in offs]
     per = [START + t for t in offs]
-    forms = [("tuple", lambda: tuple(per)), ("list", lambda: list(per)), ("reversed", lambda: tuple(reversed(per))),
-             ("rotated", lambda: tuple(per[1:] + per[:1]))]
+    csv = lambda l: ",".join(str(t) for t in l)
+    forms = [("tuple", lambda: tuple(per), csv(offs)), ("list", lambda: list(per), csv(offs)),
+             ("reversed", lambda: tuple(reversed(per)), csv(offs[::-1])),
+             ("rotated", lambda: tuple(per[1:] + per[:1]), csv(offs[1:] + offs[:1]))]
     srt = sorted(set(offs))
     d = None
     if len(srt) == len(offs) and len(srt) >= 2 and len({b - a for a, b in zip(srt, srt[1:])}) == 1:
         d = srt[1] - srt[0]
     elif len(offs) == 1:
         d = 1 + key // 7 % 3
-        forms.append(("period", lambda: per[0]))
+        forms.append(("period", lambda: per[0], csv(offs)))
     if d is not None:
         a, b = srt[0], srt[-1]
-        span_forms = [("span", lambda: ir.Span(START + a, START + b, d)), ("backspan", lambda: ir.Span(START + b, START + a, -d))]
+        span_forms = [("span", lambda: ir.Span(START + a, START + b, d), f"s/{a}/{b}/{d}"),
+                      ("backspan", lambda: ir.Span(START + b, START + a, -d), f"s/{b}/{a}/{-d}")]
         if 0 <= a and b < NP:
-            span_forms += [("ctxspan", lambda: ir.Span(ir.start + a, ir.end - (NP - 1 - b), d)),
-                           ("ctxback", lambda: ir.Span(ir.end - (NP - 1 - b), ir.start + a, -d))]
+            c = NP - 1 - b
+            span_forms += [("ctxspan", lambda: ir.Span(ir.start + a, ir.end - c, d), f"s/cs:{a}/ce:{-c}/{d}"),
+                           ("ctxback", lambda: ir.Span(ir.end - c, ir.start + a, -d), f"s/ce:{-c}/cs:{a}/{-d}")]
         forms = span_forms * 2 + forms      # spans are the interesting forms: twice the weight
-    name, make = forms[key % len(forms)]
-    return make(), name + (f"(step {d})" if "span" in name or "ctx" in name else "")
+    name, make, proto = forms[key % len(forms)]
+    return name + (f"(step {d})" if "span" in name or "ctx" in name else ""), make, proto
+
+
+def dates_arg(offs, NP, key):
+    """one of the ways a user can hand the intended plan dates `START + t, t in offs` to exogenize_*/endogenize_*: a tuple or list of
+    periods in the given, reversed or rotated order, a single Period, and -- when the offsets are an arithmetic progression -- a `Span`
+    with that step, forward or backward (negative step), with resolved or context-dependent (`ir.start + a`, `ir.end - c`) end points.
+    The intended set is `offs` whatever the form; `key` picks the form deterministically (so that a replay picks the same)."""
+    name, make, _ = _date_forms(offs, NP, key)
+    return make(), name
+
+
+def dates_proto(offs, NP, key) -> str:
+    """the same form as text for the Lean driver (`t1,t2,…` in the order handed over, or `s/<e1>/<e2>/<step>` for a Span): the model
+    normalises the form itself (`periodIndexes`), the oracles work from the intended set"""
+    return _date_forms(offs, NP, key)[2]
+
+
+def lean_plan_line(line: str) -> str:
+    """a plan-stream request with every op's dates in the form in which the implementation receives them"""
+    secs = [s.strip() for s in line.split("|")]
+    NP = int(secs[0].split()[1])
+    ops = []
+    for opj, op in enumerate([o.strip() for o in secs[1].split(";") if o.strip()]):
+        w, k, stt, per, nm = op.split()
+        ops.append(" ".join([w, k, stt, dates_proto([int(t) for t in per.split(",")], NP, form_key(op, opj)), nm]))
+    return " | ".join([secs[0], ";".join(ops)] + secs[2:])
 
 
 def form_key(*parts) -> int:
@@ -1033,7 +1060,7 @@ def run_plan_stream(ctx: Ctx, n):
             oracle_plan_writes(ctx, l)
         except Exception as e:
             ctx.count("plan_read_oracle_raises")
-    ctx.compare("plan", lines, impl, ctx.model("C07", lines))
+    ctx.compare("plan", lines, impl, ctx.model("C07", [lean_plan_line(l) for l in lines]))
     for l, o in zip(lines, impl):
         oracle_plan_line(ctx, l, o)
     ctx.evaluations += len(lines)
@@ -1041,6 +1068,78 @@ def run_plan_stream(ctx: Ctx, n):
     ctx.count("plan_reads(one object, read after every op)", len(lines))
     if seqs:
         ctx.sample({"stream": "plan", "request": seqs[0], "implementation_after_every_op": impl[:len(prefix_lines(seqs[0]))][-2:]})
+
+
+# ---------------------------------------------------------------------------------------
+# the expansion memo on the solution object: histories of expand_square_solution(forward)
+# ---------------------------------------------------------------------------------------
+
+def gen_memo_case(rng: Rng):
+    for _ in range(30):
+        spec = gen_model_spec(rng)
+        if not any(sh > 0 for e in spec["eqs"] for _, _, sh in e["terms"]):
+            continue
+        try:
+            m, ok = build_model(spec)
+        except Exception:
+            ok = False
+        if ok:
+            return {"memo_spec": spec, "forwards": [rng.randint(0, 6) for _ in range(rng.randint(3, 7))]}
+    return None
+
+
+def run_memo_cases(ctx: Ctx, cases, with_model=True):
+    """one solution object, a history of calls: every call must return [P, -X Ru, -X J Ru, …, -X J^(forward-1) Ru] whatever was asked
+    before (oracle: numpy, formula by formula, evaluated after the whole history so that a later call must not have altered an earlier
+    result); the Lean state machine `Sol.expandHistory` is run on the same history"""
+    reqs, kept = [], []
+    for case in cases:
+        m, ok = build_model(case["memo_spec"])
+        sol = m._gets_solution()
+        P, X, J, Ru = (np.array(getattr(sol, k), dtype=float) for k in ("P", "X", "J", "Ru"))
+        try:
+            outs = [sol.expand_square_solution(int(f)) for f in case["forwards"]]
+        except Exception as e:
+            ctx.fail("expansion-raises", case, repr(e))
+            continue
+        ctx.evaluations += 1
+        ctx.count("memo_histories")
+        ctx.count("memo_calls", len(outs))
+        scale = max(1.0, float(np.max(np.abs(P))) if P.size else 1.0)
+        bad = None
+        for ci, (f, out) in enumerate(zip(case["forwards"], outs)):
+            want = [P] + [-X @ np.linalg.matrix_power(J, k) @ Ru for k in range(f)]
+            if out is None or len(out) != len(want):
+                bad = f"call {ci} (forward={f}) returned {None if out is None else len(out)} matrices, expected {len(want)}"
+                break
+            for k, (a, b) in enumerate(zip(out, want)):
+                if np.shape(a) != b.shape or not np.all(np.abs(np.asarray(a) - b) <= 1e-10 * scale):
+                    bad = f"call {ci} (forward={f}) of history {case['forwards']}: R_{k} differs from {'P' if k == 0 else f'-X J^{k-1} Ru'} by {float(np.max(np.abs(np.asarray(a) - b))) if np.shape(a) == b.shape else 'shape'}"
+                    break
+            if bad:
+                break
+        if bad:
+            ctx.fail("expansion-depends-on-call-history", case, bad)
+        elif len(set(case["forwards"])) > 1:
+            ctx.nontriv(("memo", tuple(case["forwards"])[:4], X.shape))
+        if with_model:
+            reqs.append(" | ".join(["memo", mat_text(P), mat_text(X), mat_text(J), mat_text(Ru), ",".join(str(f) for f in case["forwards"])]))
+            kept.append((case, outs, scale))
+    if with_model and reqs:
+        replies = ctx.model("C07", reqs)
+        if replies is not None:
+            for (case, outs, scale), rep in zip(kept, replies):
+                ctx.streams_compared["memo"] = ctx.streams_compared.get("memo", 0) + 1
+                calls = [[parse_mat(mt) for mt in call.split("&")] for call in rep.split("||")] if rep != "bad-op" else None
+                ok = calls is not None and len(calls) == len(outs)
+                if ok:
+                    for a_call, b_call in zip(outs, calls):
+                        ok = ok and a_call is not None and len(a_call) == len(b_call) and all(
+                            np.shape(a) == b.shape and np.all(np.abs(np.asarray(a) - b) <= 1e-9 * scale) for a, b in zip(a_call, b_call))
+                if not ok:
+                    ctx.disagree("memo", case, "implementation history " + str([None if o is None else len(o) for o in outs]), rep[:200])
+    if cases:
+        ctx.sample({"stream": "memo", "forwards": cases[0]["forwards"], "model": model_source(cases[0]["memo_spec"])})
 
 
 # ---------------------------------------------------------------------------------------
@@ -1082,6 +1181,8 @@ def run(ctx: Ctx):
             cases.append(c)
     run_cases(ctx, cases)
     run_plan_stream(ctx, ctx.n(250, 3000))
+    mrng = ctx.rng.fork("memo")
+    run_memo_cases(ctx, [c for c in (gen_memo_case(mrng.fork(i)) for i in range(ctx.n(30, 300))) if c])
 
 
 def search(ctx: Ctx, seeds):
@@ -1095,6 +1196,8 @@ def search(ctx: Ctx, seeds):
         if c is not None:
             cases.append(c)
     run_cases(ctx, cases, with_model=False)
+    run_memo_cases(ctx, [s for s in seeds if "memo_spec" in s] + [c for c in (gen_memo_case(rng.fork(("m", i).__repr__())) for i in range(200)) if c],
+                   with_model=False)
     lines = [gen_plan_line(rng) for _ in range(1500)]
     for l in lines:
         try:
@@ -1110,10 +1213,12 @@ def replay(ctx: Ctx, payload):
     case = unwrap(payload.get("case", payload))
     if isinstance(case, dict) and "spec" in case:
         run_cases(ctx, [case])
+    elif isinstance(case, dict) and "memo_spec" in case:
+        run_memo_cases(ctx, [case])
     elif isinstance(case, dict) and "line" in case or isinstance(case, str):
         line = case["line"] if isinstance(case, dict) else case
         pre, rep = prefix_lines(line), impl_plan_prefixes(line)
-        ctx.compare("plan", pre, rep, ctx.model("C07", pre))
+        ctx.compare("plan", pre, rep, ctx.model("C07", [lean_plan_line(l) for l in pre]))
         oracle_plan_reads(ctx, line, rep)
         oracle_plan_writes(ctx, line)
         oracle_plan_line(ctx, line, rep[-1])
